@@ -17,6 +17,7 @@ structure St where
   vmodels : List (Nat × Model.Vec.VState) := []       -- implementation-level vector index, in lock-step
   rmodels : List (Nat × Model.RootsStore.RStore) := [] -- roots table + cache model (C33), in lock-step
   allBlocks : List (Nat × List Inst.Block) := []       -- every block an instance emitted so far
+  noApply : List (Nat × Nat) := []                      -- instance ↦ m: no ApplyEvent for frames divisible by m
 
 def parsePairs (ws : List String) : List (Nat × Nat) :=
   ws.filterMap (fun p => match p.splitOn ":" with
@@ -64,12 +65,14 @@ def sameDecisions (bs : List Inst.Block) (ds : List Model.Orderer.Decided) : Boo
 
 def stateStr (i : Inst) : String := s!"E={i.epoch} LDF={i.ldf}"
 
-def fmtBlock (b : Inst.Block) : String :=
+/-- `m > 0`: the application passed no ApplyEvent callback for blocks whose frame is a multiple of `m` -/
+def fmtBlock (m : Nat) (b : Inst.Block) : String :=
   let sl := if b.sealed then ":seal" else ""
-  s!"{b.epoch}.{b.frame}:a={b.atropos}:ch=[{joinNat b.cheaters ","}]:ev=[{joinNat b.events ","}]:n={b.events.length}{sl}"
+  let evs := if m > 0 && b.frame % m == 0 then "skip" else s!"[{joinNat b.events ","}]:n={b.events.length}"
+  s!"{b.epoch}.{b.frame}:a={b.atropos}:ch=[{joinNat b.cheaters ","}]:ev={evs}{sl}"
 
-def fmtBlocks (bs : List Inst.Block) : String :=
-  if bs.isEmpty then "-" else " ".intercalate (bs.map fmtBlock)
+def fmtBlocks (m : Nat) (bs : List Inst.Block) : String :=
+  if bs.isEmpty then "-" else " ".intercalate (bs.map (fmtBlock m))
 
 def mkEv (n epoch : Nat) (ws : List String) (frame : Nat) : Ev :=
   { n := n, epoch := epoch, creator := nat! ((kv ws "c").getD "0"), seq := nat! ((kv ws "s").getD "0"),
@@ -86,7 +89,7 @@ def sortStr (l : List String) : List String := l.foldr insertSortedStr []
 def posIn (i : Inst) (n : Nat) : Option Nat := i.posOf n
 
 def needsInst (op : String) : Bool :=
-  ["restart", "reset", "build", "rebuild", "process", "fc", "hb", "roots", "state", "allblocks"].contains op
+  ["restart", "reset", "build", "rebuild", "process", "fc", "hb", "roots", "state", "allblocks", "noapply"].contains op
 
 def knownParents (st : St) (e : Ev) : Bool := e.parents.all (fun p => (st.events.lookup p).isSome)
 
@@ -177,7 +180,7 @@ def step (st : St) (ws : List String) : St × String :=
         let st1 := setR (setV (setO (setInst st (nat! k) i') (nat! k) o') (nat! k) v') (nat! k) r'
         let prevB := (st.allBlocks.lookup (nat! k)).getD []
         ({ st1 with allBlocks := (nat! k, prevB ++ bs) :: st.allBlocks.filter (fun x => x.1 != nat! k) },
-         s!"ok {stateStr i'} {fmtBlocks bs}{note}")
+         s!"ok {stateStr i'} {fmtBlocks ((st.noApply.lookup (nat! k)).getD 0) bs}{note}")
   | ["fc", k, a, b] =>
     let i := getInst st (nat! k)
     match posIn i (nat! a), posIn i (nat! b) with
@@ -202,6 +205,7 @@ def step (st : St) (ws : List String) : St × String :=
     let ml := rr.map (fun x => s!"{x.validator}:{x.id}")
     let note := if sortStr ml == sortStr l then "" else " ROOTS-MODEL-DIFFERS"
     (setR st (nat! k) r', (if l.isEmpty then "-" else " ".intercalate (sortStr l)) ++ note)
+  | ["noapply", k, m] => ({ st with noApply := (nat! k, nat! m) :: st.noApply.filter (fun x => x.1 != nat! k) }, "ok")
   | ["allblocks", k] =>
     let bs := (st.allBlocks.lookup (nat! k)).getD []
     (st, if bs.isEmpty then "-" else
